@@ -356,6 +356,8 @@ def str_eq(I, w, ci, args):
     si, sj = int_singleton(a) if is_int(a) else None, int_singleton(b) if is_int(b) else None
     if si is not None and sj is not None:
         return [(w, TRUE if si == sj else FALSE)]
+    if is_int(a) and is_int(b) and a[2] is None and b[2] is None and a[1] and b[1] and not (a[1] & b[1]):
+        return [(w, FALSE)]        # disjoint value sets are never equal
     return [(w, BOOL)]
 
 
